@@ -52,10 +52,10 @@ theorem create_index_check_sound (new : List Index) (removed : List Nat) (other 
 /-- the OTHER commit order is handled: a column-rewriting Update (or any Delete / Append / Update) committed on a
     faithful version leaves a faithful version — `prune_updated_fields_from_indices` removes what it invalidates -/
 theorem update_after_index_pruned (m m' : Manifest) (aff : List (Nat × List Nat)) (removed : List Nat)
-    (patches : List (Nat × Patch)) (news : List (List Row)) (fm : List Nat) (hit : List (Nat × List Nat)) (cm : Bool)
-    (hF : Faithful m) (hB : Bounded m) (hD : Declared (.update aff removed patches news fm hit cm))
+    (patches : List (Nat × Patch)) (news : List (List Row)) (fm : List Nat) (hit : List (Nat × List Nat)) (cm : Option (List Nat))
+    (hst : m.stable = false) (hF : Faithful m) (hB : Bounded m) (hD : Declared (.update aff removed patches news fm hit cm))
     (hb : build m (.update aff removed patches news fm hit cm) = .ok m') : Faithful m' :=
-  (build_keeps hb hF hB hD (by intro _ _ h; cases h) (by intro _ _ h; cases h)).1
+  (build_keeps hb hst hF hB hD (by intro _ _ h; cases h) (by intro _ _ h; cases h)).1
 
 /-- create_index builds what it claims, from the version of its handle -/
 theorem create_index_built (m : Manifest) (uuid name fld : Nat) : Built m (bIndex m uuid name fld) :=
@@ -176,7 +176,7 @@ example : allFaithfulB (runReqs (initStore wTable) wSafe) = true := by decide
 
 /-- the repaired check refuses the witness of region (a): A's create_index(x), built at v1, after the merge_insert -/
 example : (match commitRepaired (runReqs (initStore wTable) [(0, .mix [[some 1, some 100]])]).hist 1
-      (bIndex ⟨addNews (fun _ => none) 0 wTable, 2, []⟩ 1 1 1) with
+      (bIndex ⟨addNews (fun _ => none) 0 wTable, 2, [], false⟩ 1 1 1) with
     | .error .retryable => true
     | _ => false) = true := by decide
 
@@ -186,7 +186,7 @@ example : (runReqs (initStore wTable)
   decide
 
 /-- `create_index_check_sound` has instances: create_index(x) passes a concurrent update of y in place … -/
-example : conflicts (bIndex ⟨addNews (fun _ => none) 0 wTable, 2, []⟩ 1 1 1)
-    (.update [] [] [(0, [(2, [some 1, some 2])])] [] [2] [] true) = false := by decide
+example : conflicts (bIndex ⟨addNews (fun _ => none) 0 wTable, 2, [], false⟩ 1 1 1)
+    (.update [] [] [(0, [(2, [some 1, some 2])])] [] [2] [] none) = false := by decide
 
 end LanceModel.C24
